@@ -5,6 +5,8 @@ import OVM.Hex.ShapeAll
 import OVM.Hex.ConvAll
 import OVM.Hex.CubeIso
 import OVM.Hex.EightVerts
+import OVM.Hex.VerticesGeneral
+import OVM.Hex.CheckedConv
 /-
   C16 — hexahedral kernel: shape and halfface-order invariants, hex navigation.
   Part 1 is about the tables *generated from the C++ sources* (OVM.Gen.HexTables, T2): an edit of an
@@ -34,21 +36,22 @@ import OVM.Hex.EightVerts
   share no vertex" did not follow from acceptance before 7b999c9 (the pinched hexahedron, C16J); since
   that repair the override rejects six quads that do not span exactly eight distinct vertices
   (`pinched_rejected`), every accepted call stores eight distinct vertices (`accepted_cell_spans_eight`,
-  `checked_add_cell_eight_distinct`), and with the vertex-disjointness of the opposite pairs as a hypothesis
-  an accepted cell is `HexConv` (`checked_add_cell_conv_partial`; the combinatorial step from "closed
-  surface of six quads with eight distinct vertices and both walk clauses" to that disjointness is open).
+  `checked_add_cell_eight_distinct`).  Eight vertices are not enough (C16K: a closed surface of six proper quads
+  on eight distinct vertices, with both walk clauses, whose first two halffaces share two vertices); since
+  7800c85 the checked call rejects a list whose opposite pairs are not vertex-disjoint (`quadSphere_rejected`),
+  and an accepted checked call stores a `HexConv` cell (`checked_add_cell_conv`).
   For every cell that is a consistently renamed copy of the standard cube — any state, any handles — every
   one of the 720 permutations of its halfface list is accepted and stored as a `HexConv` re-ordering, and a
   list accepted as given has its first two halffaces vertex-disjoint (`hexCopy_all_permutations_partial`:
   by equivariance of the checked call, OVM/Hex/CubeIso.lean, from the exhaustive run on the standard cube
   `cube_all_permutations_partial`).
   Part 4: orientation / accessors / opposite halfface are the positions of the stored list.
-  Part 5: `add_cell(8 vertices)` and `hex_vertices` on concrete cubes (`…_partial`: symbolic
-  computation over eight arbitrary distinct vertices through the find-or-create loops is not done; what is
-  missing is a specification of `add_face(vertices)` — "the stored halfedges run v0→v1→…→v0, and the halfedge
-  a→b is the opposite of the halfedge b→a" needs the uniqueness of the edge between two of the eight vertices —
-  from which a fresh `add_cell(8 vertices)` is a `CellMap` copy of the standard cube; Parts 2, 2b and 3 then
-  apply to it: `all_ops_preserve_len`, `conv_run`, `hexCopy_all_permutations_partial`).
+  Part 5: `add_cell(8 vertices)` stores a `HexConv` cell, symbolically, for eight arbitrary distinct vertices of
+  any reachable state with unique edges among them, fresh or pre-existing faces in any rotation / side
+  (`add_cell_vertices_conv`); hence `conv_run_api`: histories through the public API need no "created in
+  convention" assumption for the vertex-based path.  `hex_vertices` and the sheet circulators: on concrete
+  cubes (`…_partial`; the symbolic version would need the specification of `adjacent_halfface_in_cell` on the
+  new cell).
 -/
 namespace OVM.Props.C16
 open OVM OVM.Kernel OVM.Gen.HexTables OVM.Kernel.HexAll
@@ -314,6 +317,20 @@ theorem pinched_rejected :
     kP.spanVertCount [0, 2, 4, 6, 8, 10] = 7 ∧ kP.hexCheckOrdering [0, 2, 4, 6, 8, 10] = true ∧
     kP.cellCheck [0, 2, 4, 6, 8, 10] = true ∧ kP.hexOppDisjointB [0, 2, 4, 6, 8, 10] = false := by decide +kernel
 
+/-- C16K (findings/C16-quad-sphere-hex.md): the sphere has a second quadrangulation with six proper quads, twelve
+    edges and EIGHT distinct vertices (degrees 4,4,3,3,3,3,2,2).  Its faces form a closed surface, both walks of
+    `check_halfface_ordering` succeed and the guard of 7b999c9 passes, but its first two halffaces share two
+    vertices.  Since 7800c85 the topology-checked call REJECTS it (the guard `oppPairsDisjoint` on the list about
+    to be stored) and returns the state unchanged; the unchecked call stores what it is given, as before. -/
+theorem quadSphere_rejected :
+    let kW := [[0, 1, 2, 3], [4, 0, 5, 2], [1, 0, 4, 6], [3, 2, 5, 7], [2, 1, 6, 4], [0, 3, 7, 5]].foldl
+      (fun k vs => (k.hexAddFaceV vs).1) (({} : Kernel).addNVertices 8)
+    kW.hexAddCell [0, 2, 4, 6, 8, 10] true = (kW, none) ∧
+    kW.hexCheckOrdering [0, 2, 4, 6, 8, 10] = true ∧ kW.cellCheck [0, 2, 4, 6, 8, 10] = true ∧
+    kW.spanVertCount [0, 2, 4, 6, 8, 10] = 8 ∧ kW.oppPairsDisjoint [0, 2, 4, 6, 8, 10] = false ∧
+    kW.hfVerts 0 = [0, 1, 2, 3] ∧ kW.hfVerts 2 = [4, 0, 5, 2] ∧
+    (kW.hexAddCell [0, 2, 4, 6, 8, 10] false).2 = some 0 := by decide +kernel
+
 /-- **an accepted `add_cell(halffaces)` — checked or unchecked — stores six quads that span exactly eight
     distinct vertices** (the guard of 7b999c9, read in the new state) -/
 theorem accepted_cell_spans_eight (k : Kernel) (hfs : List Nat) (chk : Bool) (c : Nat)
@@ -361,39 +378,22 @@ theorem cube_all_permutations_partial (p : List Nat) (hp : p.Perm [0, 2, 4, 6, 8
 
 example : (Hex.Cube.perms Hex.Cube.L).length = 720 := Hex.Cube.perms_count
 
-/-- an accepted cell whose opposite pairs are vertex-disjoint is `HexConv`: through the re-ordering path always,
-    as given under the side-neighbour hypothesis of `checkOrdering_walk`.  `_partial`: the vertex-disjointness
-    of the three opposite pairs is a hypothesis; the accepted cell has eight distinct vertices
-    (`checked_add_cell_eight_distinct`), but the derivation of the disjointness from that (a combinatorial
-    statement about closed quad surfaces) is not proved here. -/
-theorem checked_add_cell_conv_partial (k : Kernel) (hfs : List Nat) (c : Nat)
-    (h : (k.hexAddCell hfs true).2 = some c)
-    (hd : (k.hexAddCell hfs true).1.hexOppDisjointB ((k.hexAddCell hfs true).1.cellAt c) = true)
-    (hw : k.hexCheckOrdering hfs = false ∨
-      ∃ h0 h1 h2 h3 h4 h5 e0 e1 e2 e3 f0 f1 f2 f3 x y, hfs = [h0, h1, h2, h3, h4, h5] ∧
-        k.hfHes h0 = [e0, e1, e2, e3] ∧ k.hfHes h1 = [f0, f1, f2, f3] ∧
-        k.hexGetAdj h0 e0 hfs = some x ∧ x ≠ h1 ∧ k.hexGetAdj h1 f0 hfs = some y ∧ y ≠ h0) :
-    (k.hexAddCell hfs true).1.hexConvB c = true := by
-  obtain ⟨hc, hf, l, hcells, hl, _, hcase⟩ := hexAddCell_accept k hfs true c h
-  have hcell : (k.hexAddCell hfs true).1.cellAt c = l := by unfold cellAt; rw [hcells, hc]; simp [nC]
-  have hwalk : (k.hexAddCell hfs true).1.hexWalkB ((k.hexAddCell hfs true).1.cellAt c) = true := by
-    by_cases hno : k.hexCheckOrdering hfs = false
-    · exact checked_add_cell_reordered_walk k hfs c h hno
-    · rcases hw with hw | ⟨h0, h1, h2, h3, h4, h5, e0, e1, e2, e3, f0, f1, f2, f3, x, y, rfl, a1, a2, a3, a4, a5, a6⟩
-      · exact absurd hw hno
-      · have hchk : k.hexCheckOrdering [h0, h1, h2, h3, h4, h5] = true := by simpa using hno
-        have hl' : l = [h0, h1, h2, h3, h4, h5] := by
-          rcases hcase with ⟨e, _⟩ | ⟨_, e, _⟩ | ⟨_, e, _⟩
-          · simp at e
-          · exact e
-          · rw [hchk] at e; simp at e
-        rw [hcell, hl']
-        unfold hexWalkB
-        rw [hexWalkAtB_congr k _ hf]
-        exact (Kernel.checkOrdering_walk k h0 h1 h2 h3 h4 h5 e0 e1 e2 e3 f0 f1 f2 f3 x y a1 a2 hchk a3 a4 a5 a6).1
-  unfold hexConvB hexConvListB
-  rw [hcell] at hd hwalk ⊢
-  simp [hl, hd, hwalk]
+/-- **an accepted topology-checked `add_cell(halffaces)` stores a cell in convention** (since 7800c85 the list about
+    to be stored must have vertex-disjoint opposite pairs; `oppPairs_eq`: that guard, written from the C++, is the
+    first clause of `HexConv`).  Through the re-ordering path there is no hypothesis.  A list accepted as given needs
+    its first two halffaces to be proper loop quads (`ProperQuad`: four chained halfedges through four distinct
+    vertices — what `add_face(vertices)` and the checked `add_face(halfedges)` produce): then the neighbour across the
+    first halfedge of either one is a side halfface, which is what `check_halfface_ordering` needs to pin the whole
+    walk (`checkOrdering_walk`). -/
+theorem checked_add_cell_conv (k : Kernel) (hfs : List Nat) (c : Nat) (h : (k.hexAddCell hfs true).2 = some c)
+    (hq : k.hexCheckOrdering hfs = true → ProperQuad k (hfs.getD 0 0) ∧ ProperQuad k (hfs.getD 1 0)) :
+    (k.hexAddCell hfs true).1.hexConvB c = true := hexAddCell_checked_conv k hfs c h hq
+
+/-- the re-ordering path alone: no hypothesis -/
+theorem checked_add_cell_reordered_conv (k : Kernel) (hfs : List Nat) (c : Nat)
+    (h : (k.hexAddCell hfs true).2 = some c) (hno : k.hexCheckOrdering hfs = false) :
+    (k.hexAddCell hfs true).1.hexConvB c = true :=
+  hexAddCell_checked_conv k hfs c h (fun e => by rw [hno] at e; cases e)
 
 /-- **every permutation of every renamed copy of the standard cube** (any state `k`, any handles: the cell's
     halffaces are `L.map ρ`, its halfedges and vertices the images under `σ`, `τ` of the standard cube's):
@@ -482,6 +482,52 @@ theorem opposite_in_cell_involutive (k : Kernel) (c hf : Nat) (hn : (k.cellAt c)
   oppositeInCell_involutive k c hf hn hl hm
 
 /-! ## Part 5: add_cell(8 vertices), hex_vertices and the sheet circulators on concrete cubes -/
+
+/-- **`add_cell(8 vertices)` stores a cell in convention — symbolically**: any state satisfying the reachability
+    invariant, eight valid pairwise distinct vertices between any two of which at most one live edge runs
+    (`UniqEdges`), every halfface returned by one of the six `find_halfface_extensive` look-ups a closed loop
+    (`HfLoop`).  Whether the six faces are fresh, or some pre-exist — found in any rotation and on either side —
+    an accepting call stores its six halffaces in the x-front … z-back convention.
+    Ingredients (OVM/Hex/FaceSpec.lean, VerticesGeneral.lean): the specification of `add_face(vertices)`
+    (`addFaceV_spec`: halfedges run v0→v1→…→v0 on live edges; `add_edge` creates an edge only if none joins the
+    two vertices, so edge uniqueness is kept), `opp_of_runs` (with unique edges the halfedge w→u IS the opposite
+    of u→w) and `conv_of_cycles` (six loops through the quadruples of the source tables are `HexConv`). -/
+theorem add_cell_vertices_conv (k : Kernel) (vs : List Nat) (chk : Bool) (hi : Global.GInv k)
+    (hvs : ∀ v ∈ vs, Global.VOk k v) (hd : vs.Nodup) (hu : UniqEdges k vs)
+    (hloop : ∀ I ∈ cellVFind, ∀ x, k.findHalffaceExtensive (hexPick vs I) = some x → HfLoop k x)
+    (c : Nat) (h : (k.hexAddCellV vs chk).2 = some c) : (k.hexAddCellV vs chk).1.hexConvB c = true :=
+  hexAddCellV_conv k vs chk hi hvs hd hu hloop c h
+
+/-- **histories through the public API**: with valid arguments (`HexOpOK`), cells created by
+    `add_cell(8 vertices)` under the conditions of `add_cell_vertices_conv` or by the topology-checked
+    `add_cell(halffaces)` on proper loop quads (`ApiOpOK`; only the UNCHECKED `add_cell(halffaces, false)`, which
+    stores what it is given, keeps "in convention" as the caller's obligation), every live cell is in convention
+    after every history — all deletion modes, `collect_garbage`, swaps -/
+theorem conv_run_api (ops : List HexOp) (k : Kernel) (hi : Global.GInv k) (h : ConvAll k) (hr : ApiHistoryOK k ops) :
+    Global.GInv (hexRun k ops) ∧ ConvAll (hexRun k ops) := HexAll.conv_run_api ops k hi h hr
+
+/-- non-vacuity: in `demoOps` both cubes come from `add_cell(8 vertices)` — the second one finds the shared face,
+    which pre-exists in another rotation and is used from its other side — and the primitive conditions hold at
+    each call; no "created in convention" assumption is used -/
+example : ApiHistoryOK {} demoOps ∧ ConvAll (hexRun {} demoOps) := by
+  have h : ApiHistoryOK {} demoOps := apiHistoryOK_of_B _ _ (by decide +kernel)
+  exact ⟨h, (conv_run_api demoOps {} Global.ginv_empty (fun c hl => by unfold liveC nC at hl; simp at hl) h).2⟩
+
+/-- a history that creates its cells through the topology-checked `add_cell(halffaces)`: six quads by
+    `add_face(vertices)`, a mirrored list (re-ordered by the call), deferred `delete_cell`, the convention order
+    (accepted as given), `collect_garbage`, `swap_face_indices` -/
+def demoOps2 : List HexOp :=
+  [.base (.addNVertices 8), .base (.addFaceV [3, 2, 1, 0]), .base (.addFaceV [7, 6, 5, 4]), .base (.addFaceV [1, 2, 6, 7]),
+   .base (.addFaceV [4, 5, 3, 0]), .base (.addFaceV [1, 7, 4, 0]), .base (.addFaceV [2, 3, 5, 6]),
+   .base (.addCell true [0, 2, 4, 6, 10, 8]), .base (.deleteCell 0), .base (.addCell true [0, 2, 4, 6, 8, 10]),
+   .base .collectGarbage, .base (.swapFace 0 3)]
+
+/-- non-vacuity of `conv_run_api` for the checked halfface-based path: only "the first two halffaces are proper
+    loop quads" is asked at the call that is accepted as given -/
+example : ApiHistoryOK {} demoOps2 ∧ ConvAll (hexRun {} demoOps2) ∧ (hexRun {} demoOps2).cells = [[6, 2, 4, 0, 8, 10]] := by
+  have h : ApiHistoryOK {} demoOps2 := apiHistoryOK_of_B _ _ (by decide +kernel)
+  exact ⟨h, (conv_run_api demoOps2 {} Global.ginv_empty (fun c hl => by unfold liveC nC at hl; simp at hl) h).2,
+    by decide +kernel⟩
 
 /-- `add_cell(8 vertices)` on a fresh standard cube: accepted as cell 0 in the convention order; the
     cell is HexConv, the mesh HexShape, the layout agrees with `orthogonal_orientation`, and
